@@ -22,6 +22,23 @@ THEOREMS = ["C03_meta_split", "C03_meta_shape", "C03_meta_no_header", "C03_meta_
 ADMON_REGION_KEYS = {1: "doc-text-before-note-dropped"}
 
 
+def report(chk, kind, payload, found):
+    """Failing inputs are reported at once; correspondence-only breaks are kept back until the search
+    for a failing input (all parts, end-to-end included) has run, and then reported (a few of them)."""
+    if found:
+        chk.violation(kind, payload, True)
+    else:
+        chk.__dict__.setdefault("_c03doc_deferred", []).append((kind, payload))
+
+
+def flush_deferred(chk):
+    d = chk.__dict__.pop("_c03doc_deferred", [])
+    for kind, payload in d[:8]:
+        chk.violation(kind, payload, False)
+    if len(d) > 8:
+        chk.extra["correspondence_breaks_not_listed"] = len(d) - 8
+
+
 def coq_meta(m):
     return coq_list(f"({coq_str(k)}, {coq_list(coq_str(v) for v in vs)})" for k, vs in m)
 
@@ -111,9 +128,9 @@ def part_admon(chk):
             region = code >> 2
             if code & 1:
                 found = bool(code & 2) and region == 0
-                chk.violation("failing-input" if found else "broken-correspondence",
-                              {"what": "AdmonitionPreprocessor.run vs model", "part": "admon", "lines": lines,
-                               "impl": res, "code": code}, found)
+                report(chk, "failing-input" if found else "broken-correspondence",
+                       {"what": "AdmonitionPreprocessor.run vs model", "part": "admon", "lines": lines,
+                        "impl": res, "code": code}, found)
             elif code & 2:
                 chk.disagreements += 1
                 if region == 1 and chk.known(ADMON_REGION_KEYS[1], True):
@@ -175,10 +192,10 @@ def part_meta(chk):
         for idx, code in sorted(out.items()):
             mode, lines, res = keep[idx]
             found = bool(code & 2)
-            chk.violation("failing-input" if found else "broken-correspondence",
-                          {"what": "meta_preprocessor/read_metadata vs model" if not found else
-                           "a body line was consumed as metadata (or the body is not a suffix of the comment)",
-                           "part": "meta", "mode": mode, "lines": lines, "impl": res, "code": code}, found)
+            report(chk, "failing-input" if found else "broken-correspondence",
+                   {"what": "meta_preprocessor/read_metadata vs model" if not found else
+                    "a body line was consumed as metadata (or the body is not a suffix of the comment)",
+                    "part": "meta", "mode": mode, "lines": lines, "impl": res, "code": code}, found)
     chk.extra["meta"] = {"cases": len(cases), "entity_fields": fields}
 
 
@@ -281,6 +298,7 @@ def run_part(chk):
     part_meta(chk)
     part_e2e(chk)
     part_findings(chk)
+    flush_deferred(chk)
 
 
 def replay(chk, rep):
